@@ -231,7 +231,7 @@ func callSetup() {
 			}
 		}
 		return finish(ctx, st, st.sc.H)
-	})
+	}, connect.WithInterceptors(rejector{}))
 	// client streaming: receive hrecv messages (or to the end when draining), answer with one message
 	hc := connect.NewClientStreamHandler(procClient, func(ctx context.Context, cs *connect.ClientStream[BV]) (*connect.Response[BV], error) {
 		v, ok := callStates.Load(cs.RequestHeader().Get("X-Verif-Sid"))
